@@ -22,7 +22,13 @@ from . import common as cm
 
 REQ = ["Sys.AtomicWrite", "Sys.Wire"]
 CALLS = ["open", "write", "close", "stat", "chmod", "chown", "rename"]
-MODEL_INSTRS = ["open", "write", "write2", "close", "stat", "chmod", "chown", "rename"]
+ANCHORS = ["pyflyby._file:write_file", "pyflyby._file:atomic_write_file", "pyflyby._cmdline:action_replace"]
+
+
+def model_instrs():
+    """names of the model's instruction list, in the order of the modelled variant"""
+    meta = ["chown", "chmod"] if variant_term() == "Fixed2" else ["chmod", "chown"]
+    return ["open", "write", "write2", "close", "stat"] + meta + ["rename"]
 S_IFREG = 0o100000
 P = 1000000007
 
@@ -68,6 +74,7 @@ def gen_single(r, i, thorough):
          "mode": r.choice(MODES[:13] + MODES[:13] + MODES), "umask": r.choice([0o022, 0o022, 0o077, 0o002, 0o027, 0]),
          "gid": r.choice([None, None, 12345, 1]),
          "data": gen_data(r), "stale": None, "unpriv": False, "entry": "direct",
+         "target_kind": r.choice(["regular"] * 5 + ["hardlink", "hardlink", "symlink"]),
          "inject": {"kind": "none"}}
     if r.random() < .12:
         c["stale"] = {"content": r.choice(["STALE", "", "s" * 10000]), "mode": r.choice([0o600, 0o644, 0o664])}
@@ -93,6 +100,8 @@ def gen_single(r, i, thorough):
         c["stale"] = None
         c["unpriv"] = False
         c["gid"] = None if c["gid"] == 0 else c["gid"]
+        if c["target_kind"] == "symlink":
+            c["target_kind"] = "hardlink"
     return c
 
 
@@ -105,7 +114,7 @@ def gen_two(r, i, sched=None, small=False):
         d2 = {"pat": "other\n", "reps": 2, "tail": ""}
     c = {"kind": "two", "i": i, "exists": r.random() < .85, "old": r.choice(["old\n" * 3, "", "x" * 9000]),
          "mode": r.choice(MODES[:13] + MODES[:13] + MODES), "umask": r.choice([0o022, 0o077, 0o002]), "gid": r.choice([None, 12345]),
-         "d1": d1, "d2": d2,
+         "d1": d1, "d2": d2, "target_kind": r.choice(["regular"] * 4 + ["hardlink", "symlink"]),
          "sched": sched if sched is not None else [r.random() < .5 for _ in range(14)],
          "inject1": {"kind": "none"}, "inject2": {"kind": "none"}}
     if sched is None and r.random() < .25:
@@ -145,20 +154,10 @@ class Gates(object):
         return "other:" + os.path.basename(p)
 
     def snap1(self, path):
-        try:
-            st = os.lstat(path)
-        except FileNotFoundError:
-            return None
-        if not stat.S_ISREG(st.st_mode):
-            return {"special": stat.S_IFMT(st.st_mode)}
-        with self.orig["open"](path, "rb") as f:
-            b = f.read()
-        which = [k for k, v in self.contents.items() if v == b]
-        return {"len": len(b), "chk": chk(b), "mode": stat.S_IMODE(st.st_mode), "gid": st.st_gid,
-                "ino": st.st_ino, "which": sorted(which)}
+        return snap_path(path, self.contents, self.orig["open"], self.orig["stat"])
 
     def snap(self):
-        return {k: self.snap1(v) for k, v in self.paths.items() if k in ("target", "tmp", "tmp1", "tmp2", "calib")}
+        return {k: self.snap1(v) for k, v in self.paths.items() if k in ("target", "tmp", "tmp1", "tmp2", "calib", "alias")}
 
     def emit(self, obj):
         os.write(self.report_fd, (json.dumps(obj) + "\n").encode())
@@ -234,21 +233,33 @@ class Gates(object):
 
 
 def _setup_tree(c, root):
+    """target t.py: absent / regular / regular with a second hard link (alias.py) / symlink to alias.py"""
     os.umask(0)
     os.chmod(root, 0o777)
     target = os.path.join(root, "t.py")
+    alias = os.path.join(root, "alias.py")
     by = os.path.join(root, "bystander.py")
     with open(by, "w") as f:
         f.write("bystander\n")
     if c["exists"]:
-        with open(target, "wb") as f:
+        tk = c.get("target_kind", "regular")
+        real = alias if tk == "symlink" else target
+        with open(real, "wb") as f:
             f.write(c["old"].encode())
-        os.chmod(target, c["mode"])
+        os.chmod(real, c["mode"])
         if c.get("unpriv"):
-            os.chown(target, 65534, 0)
+            os.chown(real, 65534, 0)
         elif c.get("gid") is not None:
-            os.chown(target, -1, c["gid"])
+            os.chown(real, -1, c["gid"])
+        if tk == "hardlink":
+            os.link(target, alias)
+        elif tk == "symlink":
+            os.symlink("alias.py", target)
     return target, by
+
+
+def alias_path(c, root):
+    return {"alias": os.path.join(root, "alias.py")} if c["exists"] and c.get("target_kind", "regular") != "regular" else {}
 
 
 def _child_writer(c, root, target, data_text, inject, report_fd, ctrl_fd, tmpkey="tmp", stale=None, entry="direct",
@@ -358,19 +369,28 @@ class LineReader(object):
             out.append(x)
 
 
+def snap_path(path, contents, opener=open, statf=None):
+    """what an observer sees at `path`: bytes, mode, gid and inode of the file it denotes (a symlink is
+    followed, as a reader would), and whether the name itself is a symlink"""
+    try:
+        lst = os.lstat(path)
+    except FileNotFoundError:
+        return None
+    islink = stat.S_ISLNK(lst.st_mode)
+    try:
+        st = (statf or os.stat)(path) if islink else lst
+    except OSError:
+        return {"special": "dangling"}
+    if not stat.S_ISREG(st.st_mode):
+        return {"special": stat.S_IFMT(st.st_mode)}
+    with opener(path, "rb") as f:
+        b = f.read()
+    return {"len": len(b), "chk": chk(b), "mode": stat.S_IMODE(st.st_mode), "gid": st.st_gid, "ino": st.st_ino,
+            "islink": islink, "which": sorted(k for k, v in contents.items() if v == b)}
+
+
 def _parent_snap(paths, contents):
-    out = {}
-    for k, p in paths.items():
-        try:
-            st = os.lstat(p)
-        except FileNotFoundError:
-            out[k] = None
-            continue
-        with open(p, "rb") as f:
-            b = f.read()
-        out[k] = {"len": len(b), "chk": chk(b), "mode": stat.S_IMODE(st.st_mode), "gid": st.st_gid, "ino": st.st_ino,
-                  "which": sorted(kk for kk, v in contents.items() if v == b)}
-    return out
+    return {k: snap_path(p, contents) for k, p in paths.items()}
 
 
 def impl_case(c):
@@ -385,14 +405,16 @@ def impl_single(c):
     root = tempfile.mkdtemp(prefix="verif-c08-")
     old_umask = os.umask(0)
     try:
+        import pyflyby._file  # noqa: F401  (imported before the fork, as a long-lived caller would have)
         target, by = _setup_tree(c, root)
-        before = _parent_snap({"target": target, "bystander": by}, {})
+        before = _parent_snap(dict({"target": target, "bystander": by}, **alias_path(c, root)), {})
         rfd, wfd = os.pipe()
         data_text = make_data(c["data"]) if c["entry"] == "direct" else None
         pid = os.fork()
         if pid == 0:
             os.close(rfd)
-            _child_writer(c, root, target, data_text, c["inject"], wfd, None, stale=c["stale"], entry=c["entry"])
+            _child_writer(c, root, target, data_text, c["inject"], wfd, None, stale=c["stale"], entry=c["entry"],
+                          others=alias_path(c, root))
         os.close(wfd)
         lines = LineReader(rfd).drain()
         os.close(rfd)
@@ -401,7 +423,7 @@ def impl_single(c):
                     "new": (data_text.encode() if data_text is not None
                             else c["old"].replace("import os, sys\n", "import os\n").encode())}
         tmp = "%s.tmp.%d" % (target, pid)
-        after = _parent_snap({"target": target, "tmp": tmp, "bystander": by}, contents)
+        after = _parent_snap(dict({"target": target, "tmp": tmp, "bystander": by}, **alias_path(c, root)), contents)
         listing = sorted(os.listdir(root))
         return {"pid": pid, "lines": lines, "exit": os.waitstatus_to_exitcode(status), "before": before, "after": after,
                 "listing": [x.replace(str(pid), "PID") for x in listing]}
@@ -415,6 +437,7 @@ def impl_two(c):
     old_umask = os.umask(0)
     kids = []
     try:
+        import pyflyby._file  # noqa: F401  the writers are forked from one process that has imported the module
         target, by = _setup_tree(c, root)
         contents = {"old": c["old"].encode(), "d1": make_data(c["d1"]).encode(), "d2": make_data(c["d2"]).encode()}
         for side, dk, ik in ((0, "d1", "inject1"), (1, "d2", "inject2")):
@@ -427,11 +450,13 @@ def impl_two(c):
                 for k in kids:
                     os.close(k["cw"])
                     os.close(k["rfd"])
-                _child_writer(c, root, target, make_data(c[dk]), c[ik], wfd, cr, tmpkey="tmp%d" % (side + 1))
+                _child_writer(c, root, target, make_data(c[dk]), c[ik], wfd, cr, tmpkey="tmp%d" % (side + 1),
+                              others=alias_path(c, root))
             os.close(wfd)
             os.close(cr)
             kids.append({"pid": pid, "rfd": rfd, "cw": cw, "rd": LineReader(rfd), "done": None, "hello": None, "calib": []})
         paths = {"target": target, "tmp1": "%s.tmp.%d" % (target, kids[0]["pid"]), "tmp2": "%s.tmp.%d" % (target, kids[1]["pid"])}
+        paths.update(alias_path(c, root))
         for k in kids:                      # hello + calibration lines
             while True:
                 x = k["rd"].readline()
@@ -530,9 +555,11 @@ def c_prog(spec, c1len, inj, flavour_map=True):
     c2 = c_data_bytes(spec, c1len, n)
     close_flush = c_fault(inj, "close") if inj.get("flavour") != "close" else "NoFault"
     close_close = c_fault(inj, "close") if inj.get("flavour") == "close" else "NoFault"
+    meta = [("IChmod", c_fault(inj, "chmod")), ("IChown", c_fault(inj, "chown"))]
+    if variant_term() == "Fixed2":
+        meta.reverse()
     items = [("IOpen", c_fault(inj, "open")), ("IWrite %s" % c1, c_fault(inj, "write")), ("IWrite %s" % c2, close_flush),
-             ("IClose", close_close), ("IStat", c_fault(inj, "stat")), ("IChmod", c_fault(inj, "chmod")),
-             ("IChown", c_fault(inj, "chown")), ("IRename", c_fault(inj, "rename"))]
+             ("IClose", close_close), ("IStat", c_fault(inj, "stat"))] + meta + [("IRename", c_fault(inj, "rename"))]
     return items
 
 
@@ -541,7 +568,8 @@ def c_items(items):
 
 
 def variant_term():
-    return os.environ.get("VERIF_C08_VARIANT", "Fixed")
+    """Orig = before F11; Fixed = F11 (chmod, chown); Fixed2 = F11 + F11b (chown, chmod): the repaired code"""
+    return os.environ.get("VERIF_C08_VARIANT", "Fixed2")
 
 
 def c_env(c, hello):
@@ -608,10 +636,11 @@ def two_exprs(c, im):
     cur = {"L": 0, "R": 0}
     sched = []
     groups = []
+    MI = model_instrs()
     for s in im["steps"]:
         name = s["ev"][0]
         side = s["side"]
-        j = MODEL_INSTRS.index(name, cur[side]) if name in MODEL_INSTRS[cur[side]:] else None
+        j = MI.index(name, cur[side]) if name in MI[cur[side]:] else None
         if j is None:
             return None
         k = j - cur[side] + 1
@@ -690,7 +719,8 @@ def oracle_single(c, im):
         if ev[0] == "rename" and ev[2]:
             renamed = True
         which = (t or {}).get("which", []) if t is not None else ["absent"]
-        is_old = (t is None and old is None) or (t is not None and old is not None and "old" in which and t["ino"] == old["ino"] and t["mode"] == old["mode"])
+        is_old = (t is None and old is None) or (t is not None and old is not None and "old" in which and t["ino"] == old["ino"]
+                                                 and t["mode"] == old["mode"] and t.get("islink") == old.get("islink"))
         # (inode numbers are recycled, so "new" is decided by the bytes alone; the inode only tells the
         #  untouched original apart when old and new bytes coincide)
         is_new = t is not None and "new" in which
@@ -722,7 +752,16 @@ def oracle_single(c, im):
             bad.append(("returns_iff_replaced", "call raised %s but the target changed: %r" % (done["done"], final)))
     if im["after"]["bystander"] != im["before"]["bystander"]:
         bad.append(("frame", "bystander file changed"))
-    extra = [x for x in im["listing"] if x not in ("t.py", "bystander.py", "t.py.tmp.PID", "calib.PID")]
+    if "alias" in im["before"]:
+        # the original's other name (second hard link, or the file the target symlink points to) keeps the original
+        a0 = {k: v for k, v in im["before"]["alias"].items() if k != "which"}
+        seen = [(x["ev"], x["snap"].get("alias")) for x in main] + [(["post-mortem"], im["after"].get("alias"))]
+        for ev, a in seen:
+            if a is None or {k: v for k, v in a.items() if k != "which"} != a0:
+                bad.append(("crash_atomic" if c["inject"]["kind"] != "fault" else "fault_atomic",
+                            "after %r the original's other name alias.py no longer holds the original: %r (was %r)" % (ev, a, a0)))
+                break
+    extra = [x for x in im["listing"] if x not in ("t.py", "bystander.py", "t.py.tmp.PID", "calib.PID", "alias.py")]
     if extra:
         bad.append(("frame", "unexpected directory entries %r" % extra))
     for x in main:
@@ -753,6 +792,12 @@ def oracle_two(c, im):
             else:
                 bad.append(("mode_preserved" if nofault else "mode_preserved_under_fault",
                             "target replaced with mode %o, the original had %o (after %r by %s)" % (t["mode"], old["mode"], ev, side)))
+    if "alias" in im["initial"]:
+        a0 = {k: v for k, v in im["initial"]["alias"].items() if k != "which"}
+        for ev, side, a in [(s["ev"], s["side"], s["snap"].get("alias")) for s in im["steps"]] + [(["final"], "-", im["final"].get("alias"))]:
+            if a is None or {k: v for k, v in a.items() if k != "which"} != a0:
+                bad.append(("two_writers", "after %r by %s the original's other name alias.py changed: %r" % (ev, side, a)))
+                break
     oks = [d and d.get("done") == "ok" for d in im["done"]]
     fin = im["final"]["target"]
     if any(oks) and not (fin and ("d1" in fin["which"] or "d2" in fin["which"])):
@@ -794,10 +839,10 @@ def compare_single(ctx, c, im, ex, mmain, mcalib):
     ok = True
     for x in main:
         name = x["ev"][0]
-        if name not in MODEL_INSTRS[cur:]:
+        if name not in model_instrs()[cur:]:
             ok = False
             break
-        j = MODEL_INSTRS.index(name, cur)
+        j = model_instrs().index(name, cur)
         ev, last = fold_group(mmain[cur:j + 1])
         want.append([ev, last["target"], last["tmp"]])
         got.append([x["ev"], norm_snap(x["snap"]["target"]), norm_snap(x["snap"]["tmp"])])
@@ -940,7 +985,10 @@ def strace_expr(c, im):
                       "IWrite (%s ++ rep %s %s ++ %s)%%list" % _split_rep(new[off:off + n]), "NoFault"))
         off += n
     inj = c["inject"] or ""
-    for nm, ins in (("close", "IClose"), ("stat", "IStat"), ("chmod", "IChmod"), ("chown", "IChown"), ("rename", "IRename")):
+    order = [("close", "IClose"), ("stat", "IStat"), ("chmod", "IChmod"), ("chown", "IChown"), ("rename", "IRename")]
+    if variant_term() == "Fixed2":
+        order[2], order[3] = order[3], order[2]
+    for nm, ins in order:
         items.append((ins, "FaultOther" if inj.startswith(nm + ":") else "NoFault"))
     e = "(mk_env %s %s None)" % (cm.cN(0o666 & ~0o022), cm.cN(os.getegid()))
     tgt = "(Some %s)" % c_file(c_content(b""), c["mode"], os.getegid())
@@ -1052,9 +1100,11 @@ def evaluate(ctx, cases, impl):
 
 
 def run(ctx):
+    cm.check_anchors(ctx, ANCHORS)
+    scale = getattr(ctx, "scale", 1)
     thorough = not ctx.quick
-    n_single = 2000 if thorough else 260
-    n_two = 300 if thorough else 50
+    n_single = (2000 if thorough else 260) * scale
+    n_two = (300 if thorough else 50) * scale
     n_strace = 40 if thorough else 6
     ctx.coverage["rule"] = (
         "single-writer cases (target present/absent x 17 modes x umasks x sizes 0..30 kB around the 8192-byte buffer x "
@@ -1073,6 +1123,12 @@ def run(ctx):
     ctx.notes["trusted_base"] = ["strace 's view of the system calls (sample only)"]
     ctx.notes["model_variant"] = variant_term()
     cases = list(cm.load_corpus("C08"))
+    for j, (mode, at, en) in enumerate([(m, a, e) for m in (0o600, 0o640, 0o755, 0o400)
+                                        for a, e in (("chown", "EPERM"), ("chmod", "EPERM"), ("stat", "EACCES"))]):
+        # a failing call of the stat/chmod/chown block with an original mode other than the umask default
+        cases.append({"kind": "single", "i": 300000 + j, "exists": True, "old": "old\n", "mode": mode, "umask": 0o022, "gid": 12345,
+                      "data": {"pat": "ab\n", "reps": 3, "tail": ""}, "stale": None, "unpriv": False, "entry": "direct",
+                      "target_kind": "regular", "inject": {"kind": "fault", "at": at, "errno": en, "flavour": "flush"}})
     for i in range(n_single):
         cases.append(gen_single(cm.rng(ctx.seed, "c08", "single", i), i, thorough))
     for i in range(n_two):
